@@ -30,18 +30,16 @@ VARIABLES l,        \* next event
           raw,      \* the raw projection of the latest version as last recorded
           hvT,      \* handle -> version
           scn,      \* current scenario
-          viol,     \* state invariants currently violated in this scenario
           lastDev,  \* deviations of the closest earlier deviating step
           skip,     \* the scenario lost synchronisation (after a "version" nonconformance)
           bad,      \* recorded failures <<event, scenario, step, kind, invariant, class / deviations>>
           cnt
-tvars == <<l, obs, raw, hvT, scn, viol, lastDev, skip, bad, cnt>>
+tvars == <<l, obs, raw, hvT, scn, lastDev, skip, bad, cnt>>
 
 ProjE(x) == Entry(x.r, x.g, x.st, x.own, x.hi, x.lu)
 ProjList(s) == [i \in 1..Len(s) |-> ProjE(s[i])]
 IsErr(P) == "error" \in DOMAIN P
 
-StateInvs == {"EachGenerationOnce", "Consecutive", "OnlyLatestOpen", "TrimmedNeverReappears"}
 Kinds == {"create", "checkout", "advance", "append", "seal", "flush", "merge", "owner", "trim", "mmerge", "tappend"}
 Counters == Kinds \cup {"scenarios", "events", "ok", "incompatible", "invalid", "unsupported", "other",
                         "stale_ok", "stale_incompatible", "versions_judged", "skipped_steps", "rows_dropped",
@@ -49,20 +47,20 @@ Counters == Kinds \cup {"scenarios", "events", "ok", "incompatible", "invalid", 
 Bump(c, names) == [x \in DOMAIN c |-> c[x] + (IF x \in names THEN 1 ELSE 0)]
 
 Init == /\ l = 1 /\ obs = <<>> /\ raw = [list |-> <<>>, rows |-> 0] /\ hvT = <<>> /\ scn = 0
-        /\ viol = {} /\ lastDev = <<>> /\ skip = FALSE /\ bad = <<>>
+        /\ lastDev = <<>> /\ skip = FALSE /\ bad = <<>>
         /\ cnt = [x \in Counters |-> 0]
 
 AddBad(entries) == IF Len(bad) < 400 THEN bad \o entries ELSE bad
 
 Reset(e) ==
   /\ obs' = <<>> /\ raw' = [list |-> <<>>, rows |-> 0] /\ hvT' = <<>> /\ scn' = e.scn
-  /\ viol' = {} /\ lastDev' = <<>> /\ skip' = FALSE
+  /\ lastDev' = <<>> /\ skip' = FALSE
   /\ bad' = bad
   /\ cnt' = Bump(cnt, {"scenarios", "events"})
 
 \* keep going without judging (after loss of synchronisation or an unreadable latest version)
 Pass(e, names) ==
-  /\ UNCHANGED <<obs, raw, scn, viol, lastDev>>
+  /\ UNCHANGED <<obs, raw, scn, lastDev>>
   /\ hvT' = e.handles
   /\ cnt' = Bump(cnt, names \cup {"events"})
 
@@ -84,7 +82,7 @@ Step(e) ==
        /\ skip' = ~good
        /\ bad' = IF good THEN bad ELSE AddBad(<<<<l, e.scn, e.i, k, "Conformance", <<"create">> >>>>)
        /\ cnt' = Bump(cnt, {"create", "events", IF e.res = "ok" THEN "ok" ELSE "other"})
-       /\ UNCHANGED <<scn, viol, lastDev>>
+       /\ UNCHANGED <<scn, lastDev>>
   ELSE
   LET Lv == Len(obs)
       L == obs[Lv]
@@ -101,12 +99,8 @@ Step(e) ==
        /\ bad' = AddBad(<<<<l, e.scn, e.i, k, "Conformance", <<"no-handle">> >>>>)
   ELSE
   LET rv == hvT[st.h]
-      op == [k |-> k, r |-> st.r, g |-> st.g, exp |-> st.exp, own |-> st.own, eid |-> st.eid]
-      Pred(D) == LET b == BuildOp(D, obs[rv], op)
-                     t == [b.txn EXCEPT !.rv = rv]
-                     res == IF b.pre # "ok" THEN b.pre ELSE Outcome(D, t, obs)
-                 IN [res |-> res, t |-> t, ver |-> IF res = "ok" THEN NewVersion(L, t, Lv + 1) ELSE L]
-      pa == Pred(AsBuilt)
+      op == CallOf(st)
+      pa == Predict(AsBuilt, obs, rv, op)
       okObs == e.res = "ok"
       confRes == e.res = pa.res
       confVer == P.v = (IF okObs THEN Lv + 1 ELSE Lv)
@@ -120,14 +114,12 @@ Step(e) ==
              ELSE IF ~confState THEN <<"state">> ELSE IF ~confRaw THEN <<"raw">> ELSE <<>>
       conforms == cls = <<>>
       \* deviations without which the as-built model would not have predicted this step
-      necessary == IF ~conforms THEN {}
-                   ELSE {d \in AsBuilt : LET p == Pred(AsBuilt \ {d}) IN p.res # pa.res \/ p.ver.list # pa.ver.list}
-      necSeq == SelectSeq(AsBuiltSeq, LAMBDA d : d \in necessary)
+      necSeq == IF conforms THEN NecSeq(obs, rv, op) ELSE <<>>
+      necessary == SeqSet(necSeq)
       dev == IF necSeq # <<>> THEN necSeq ELSE lastDev
       newver == [idx |-> P.idx, list |-> pl, txn |-> pa.t]
       obs2 == IF okObs /\ confVer THEN Append(obs, newver) ELSE obs
-      V == IF okObs /\ confVer THEN Violated(obs2, Lv + 1) ELSE {}
-      fresh == (V \ StateInvs) \cup ((V \cap StateInvs) \ viol)
+      fresh == IF okObs /\ confVer THEN Fresh(obs2, Lv + 1) ELSE {}
       freshSeq == SelectSeq(InvNames, LAMBDA nm : nm \in fresh)
       stale == rv < Lv
       resC == IF e.res \in {"ok", "incompatible", "invalid", "unsupported"} THEN e.res ELSE "other"
@@ -136,7 +128,6 @@ Step(e) ==
   /\ raw' = [list |-> P.list, rows |-> P.rows]
   /\ hvT' = e.handles
   /\ skip' = ~confVer
-  /\ viol' = IF okObs /\ confVer THEN V \cap StateInvs ELSE viol
   /\ lastDev' = dev
   /\ bad' = AddBad((IF conforms THEN <<>> ELSE <<<<l, e.scn, e.i, k, "Conformance", cls>>>>)
                    \o [j \in 1..Len(freshSeq) |-> <<l, e.scn, e.i, k, freshSeq[j], dev>>])
